@@ -59,7 +59,7 @@ _scratch_n = [0]
 
 def gen(seed, tier):
     r = random.Random(seed)
-    kind = r.choice(('file', 'file', 'file', 'mapblob'))
+    kind = r.choice(('file', 'file', 'file', 'file', 'mapblob', 'demoblob'))
     ops = []
     for _ in range(r.randint(3, 20)):
         x = r.random()
@@ -119,6 +119,12 @@ def gen(seed, tier):
         at = r.randrange(len(ops) + 1)
         ops[at:at] = block
     ops += [['commit'], ['readB']]
+    if kind == 'demoblob':
+        # the leading part of the program runs on the blob-enabled
+        # FileStorage alone; it is then closed, reopened read-only and
+        # wrapped in a DemoStorage (blobs of the changes in a temporary
+        # directory), through which the rest runs
+        ops.insert(r.randrange(len(ops) // 2 + 1), ['wrap'])
     return {'kind': kind, 'ops': ops,
             'st_opts': {'pack_gc': r.random() < 0.5,
                         'pack_keep_old': r.random() < 0.5},
@@ -181,6 +187,11 @@ class M:
         self.viol = []
         self.trace = []
         self.kind = case['kind']
+        self.base_snapshot = None
+        if self.kind == 'demoblob':
+            # phase 1 (until the 'wrap' op): the future base, a file
+            # storage with blobs
+            self.kind = 'file'
         if self.kind == 'file':
             from ZODB.FileStorage import FileStorage
             self.st = FileStorage(dbh.PATH, blob_dir=self.blob_dir,
@@ -223,7 +234,8 @@ class M:
     # -- bookkeeping --------------------------------------------------------
 
     def adopt(self):
-        n = dbh.adopt(self.log, self.st)
+        n = dbh.adopt(self.log, self.st.changes
+                      if self.kind == 'demoblob' else self.st)
         oid2k = {b['obj']._p_oid: k for k, b in self.blobs.items()
                  if b['obj']._p_oid is not None}
         for t in self.log.txns[len(self.log.txns) - n:]:
@@ -239,6 +251,87 @@ class M:
                 self.nrev += 1
         return n
 
+    def blob_dirs(self):
+        out = [self.blob_dir]
+        if self.kind == 'demoblob':
+            fsh = getattr(self.st.changes, 'fshelper', None)
+            if fsh is not None:
+                out.append(fsh.base_dir.rstrip('/'))
+        return out
+
+    def base_state(self):
+        files = {}
+        for dp, dn, fn in os.walk(self.blob_dir):
+            if os.path.basename(dp) == 'tmp' or '/tmp/' in dp + '/':
+                continue
+            for f in fn:
+                path = os.path.join(dp, f)
+                with open(path, 'rb') as fh:
+                    files[path] = hashlib.sha1(fh.read()).hexdigest()
+        return (bytes(self.sim.fs.read_bytes(dbh.PATH)), files)
+
+    def check_base(self, where):
+        if self.base_snapshot is None:
+            return
+        now = self.base_state()
+        if now[0] != self.base_snapshot[0]:
+            self.flag('demo-base-modified', '%s: the base data file '
+                      'changed' % where)
+        if now[1] != self.base_snapshot[1]:
+            ch = sorted(set(now[1].items()) ^ set(
+                self.base_snapshot[1].items()))
+            self.flag('demo-base-modified', '%s: the base blob directory '
+                      'changed: %r' % (where, [os.path.basename(x[0])
+                                               for x in ch[:3]]))
+
+    def op_wrap(self):
+        """Close the file storage, reopen it read-only and wrap it."""
+        from ZODB.DemoStorage import DemoStorage
+        from ZODB.FileStorage import FileStorage
+        if self.kind != 'file' or self.case['kind'] != 'demoblob':
+            return
+        self.A.abort()
+        self.end_fail()
+        self.B.abort()
+        self.A.close()
+        self.B.close()
+        self.db.close()
+        import gc
+        gc.collect()
+        base = FileStorage(dbh.PATH, blob_dir=self.blob_dir, read_only=True)
+        self.st = DemoStorage(base=base)
+        self.kind = 'demoblob'
+        self.db = dbh.make_db(self.sim, storage=self.st)
+        self.A = dbh.Client(self.db, 'A')
+        self.B = dbh.Client(self.db, 'B')
+        self.A.open()
+        self.B.open()
+        self.sps = []
+        self.base_snapshot = self.base_state()
+        self.reshadow()
+        self.trace.append('wrap')
+        self.after_step('after wrapping', True)
+
+    def reshadow(self):
+        """Rebuild the shadow from the committed root."""
+        A = self.A
+        A.begin()
+        root = A.root()
+        for kk in list(self.blobs):
+            if 'b%d' % kk not in root:
+                del self.blobs[kk]
+        for name in sorted(root.keys()):
+            if not name.startswith('b'):
+                continue
+            kk = int(name[1:])
+            obj = root[name]
+            cur = self.log.current(obj._p_oid)
+            if cur is None or cur[1].kind == UNCREATE:
+                self.blobs.pop(kk, None)
+                continue
+            c = self.F.get((obj._p_oid, cur[0]))
+            self.blobs[kk] = {'obj': obj, 'pending': c, 'committed': c}
+
     def rebuild_log(self):
         """After a pack: what the record storage holds now."""
         self.log = Log()
@@ -250,7 +343,9 @@ class M:
             for r in t.recs:
                 if r.kind != UNCREATE and is_blob_rec(r) and not r.shadow:
                     want[(r.oid, t.tid)] = self.F.get((r.oid, t.tid))
-        have = blob_files(self.blob_dir)
+        have = {}
+        for bd in self.blob_dirs():
+            have.update(blob_files(bd))
         extra = sorted(set(have) - set(want))
         missing = sorted(set(want) - set(have))
         if extra:
@@ -286,7 +381,9 @@ class M:
         # (reference cycles) before looking
         import gc
         gc.collect()
-        left = tmp_leftovers(self.blob_dir)
+        left = []
+        for bd in self.blob_dirs():
+            left.extend(tmp_leftovers(bd))
         # uncommitted working files of live Blob objects are legitimate
         # only inside a transaction
         if left:
@@ -401,6 +498,7 @@ class M:
 
     def after_step(self, where, txn_ended):
         self.check_files(where)
+        self.check_base(where)
         if txn_ended:
             self.check_tmp(where)
             self.A.begin()
@@ -529,6 +627,8 @@ class M:
         self.after_step('after undo', True)
 
     def op_pack(self, when):
+        if self.kind == 'demoblob':
+            return      # (the changes are a MappingStorage: C16's subject)
         A = self.A
         A.abort()
         self.end_fail()
@@ -696,6 +796,8 @@ def run(case):
                 m.op_rb(op[1])
             elif k == 'readB':
                 m.op_readB()
+            elif k == 'wrap':
+                m.op_wrap()
             if len(m.viol) >= 8:
                 break
         if not m.viol and case.get('copy', True):
